@@ -265,6 +265,15 @@ pub fn sweep<S: Scheduler>(
                 Err(e) => Some((format!("scheduler panicked: {}", panic_text(e)), json!({"panic": true}))),
             };
             if let Some((what, mode)) = bad {
+                // determinism self-check: re-execute the case once and say whether the verdict repeats
+                let mut st2 = Stats::default();
+                let again = std::panic::catch_unwind(std::panic::AssertUnwindSafe(|| {
+                    check_tree(mk, &tree, &uni, lab.draws, passes, &mut buf, &mut st2)
+                }));
+                let what = match again {
+                    Ok(Ok(())) => format!("{} [re-executed: no violation the second time - the scheduler is not deterministic]", what),
+                    _ => format!("{} [re-executed: reproduces]", what),
+                };
                 if viols.len() < 4 {
                     viols.push(Viol {
                         key: format!("abstract-dfs:d{}b{}:{}:{}", fam.d, fam.b, lab.name(), x),
@@ -343,7 +352,8 @@ fn explorer_leaves(body: &rec::Body, cap: u64) -> Result<Vec<Vec<u8>>, String> {
 pub fn child_integration(thorough: bool) {
     vx::common::silence_panics();
     let mut out = Vec::new();
-    for name in rec::BODIES.iter().filter(|n| **n != "lost-update") {
+    // mutex-3x1 has 12 786 schedules: thorough tier only
+    for name in rec::BODIES.iter().filter(|n| **n != "lost-update" && (thorough || **n != "mutex-3x1")) {
         let body = rec::body(name).unwrap();
         let with_data = *name == "draws";
         let mut o = serde_json::Map::new();
@@ -381,6 +391,29 @@ pub fn child_integration(thorough: bool) {
         if !log.ended {
             problems.push(json!({"mode":"full","what":"run did not end with new_execution -> None"}));
         }
+        // the public entry point itself: check_dfs runs the body once per schedule
+        if !with_data {
+            let count = std::sync::Arc::new(std::sync::atomic::AtomicUsize::new(0));
+            for m in [None, Some(leafset.len() / 2 + 1)] {
+                count.store(0, std::sync::atomic::Ordering::SeqCst);
+                let (b, c) = (body.clone(), count.clone());
+                let r = std::panic::catch_unwind(std::panic::AssertUnwindSafe(|| {
+                    shuttle::check_dfs(
+                        move || {
+                            c.fetch_add(1, std::sync::atomic::Ordering::SeqCst);
+                            b()
+                        },
+                        m,
+                    )
+                }));
+                let got = count.load(std::sync::atomic::Ordering::SeqCst);
+                let want = m.map(|m| m.min(leafset.len())).unwrap_or(leafset.len());
+                if r.is_err() || got != want {
+                    problems.push(json!({"mode":format!("check_dfs({:?})", m),"what":format!("check_dfs ran the body {} times, expected {} (panicked: {})", got, want, r.is_err())}));
+                }
+            }
+            o.insert("check_dfs_api_runs_checked".into(), json!(2));
+        }
         // same data stream in every execution
         if with_data {
             let d0 = log.execs.first().map(|e| e.draws()).unwrap_or_default();
@@ -408,8 +441,12 @@ pub fn child_integration(thorough: bool) {
         o.insert("yield_decisions".into(), json!(yields));
         // iteration bounds
         let nl = leafset.len();
-        let ms: Vec<usize> = if thorough || nl <= 40 {
+        // every bound for small bodies; for large ones a fixed list (every bound costs a full run)
+        let full_upto = if thorough { 300 } else { 40 };
+        let ms: Vec<usize> = if nl <= full_upto {
             (0..=nl + 1).collect()
+        } else if thorough {
+            vec![0, 1, 2, 3, 7, nl / 4, nl / 2, nl - 2, nl - 1, nl, nl + 1, nl + 5]
         } else {
             vec![0, 1, 2, nl / 2, nl - 1, nl, nl + 1]
         };
@@ -466,7 +503,7 @@ pub fn run(ctx: &CheckCtx) -> CheckResult {
         par::spawn_child(
             &["c09-integ".to_string(), if thorough { "thorough".into() } else { "quick".into() }],
             &[],
-            Duration::from_secs(if thorough { 600 } else { 30 }),
+            Duration::from_secs(if thorough { 900 } else { 40 }),
         )
     });
 
@@ -490,7 +527,13 @@ pub fn run(ctx: &CheckCtx) -> CheckResult {
         (Family::new(4, 2), vec![plain.clone(), rich.clone(), stay.clone()], Passes::All),
     ];
     if thorough {
-        plan.push((Family::new(5, 2), vec![rich.clone()], Passes::UnboundedOnly));
+        let ids0_draws = Labelling {
+            scheme: 0,
+            universe: 4,
+            yields: true,
+            draws: true,
+        };
+        plan.push((Family::new(5, 2), vec![ids0_draws], Passes::UnboundedOnly));
     }
     let mut total = Stats::default();
     let mut fams: Vec<Value> = Vec::new();
@@ -601,7 +644,7 @@ pub fn run(ctx: &CheckCtx) -> CheckResult {
     res.cov("worker_threads", nthreads as u64);
     res.assumptions.push("the runtime stops an execution under MaxSteps::ContinueAfter(n) by no longer calling next_task after n steps (emulated in E3; confirmed through the runtime on guard-free bodies only, because of F11)".into());
     res.assumptions.push("schedulers are deterministic automata over (offered ids, current, is_yielding); synthetic Task objects built with Task::from_closure are indistinguishable to them from runtime tasks (cross-validated: recorded runtime runs are reproduced call for call)".into());
-    res.assumptions.push("depth<=5/branching<=2 (1.13e9 shapes) is swept in the thorough tier only, with the unbounded, every-iteration-bound and every-cut passes but without bound x cut combinations".into());
+    res.assumptions.push("depth<=5/branching<=2 (1.13e9 shapes) is swept in the thorough tier only and with the unbounded pass only (every leaf exactly once, then None, same data stream); iteration bounds and step cuts are exhaustive up to depth<=4/branching<=2 and depth<=3/branching<=3".into());
     res
 }
 
@@ -638,7 +681,7 @@ pub fn replay(doc: &Value) {
         Some("runtime-dfs") => {
             let name = r["body"].as_str().unwrap_or("");
             println!("re-running the runtime integration for all bodies (body of interest: {}, mode {})", name, r["mode"]);
-            child_integration(true);
+            child_integration(false);
         }
         k => {
             eprintln!("unknown replay kind {:?}", k);
